@@ -66,6 +66,19 @@ CHECKS.update({
    note=HIST_NOTE),
 })
 
+SCHED_NOTE = ("Trusted base: Go toolchain; the hand-written controlled scheduler and channel/WaitGroup model in harness/overlay/vsched; the mechanical source rewriter (harness/cmd/rewrite) that redirects channel, go, sync, NumCPU and os.Open/io.Copy uses of /repo/hash and /repo/lexer to it (regenerated from the working tree on every run, fails loudly on select); SHA-256. "
+              "A cooperative scheduler cannot see unsynchronised memory accesses; yields at the I/O calls make hoisted shared state visible as schedule-dependent results.")
+CHECKS.update({
+ "C04": dict(engine="schedmc", cat="model_checking", ref="§2.2, §3 C04",
+   technique="stateless exploration of every interleaving (preemption-bounded, thorough: unbounded with state-key pruning) of the real hash code under a controlled scheduler + exhaustive pairwise change-sensitivity over a file universe",
+   text="For every list of <=3 (thorough 4) entries over a path universe (duplicates, permutations, a directory) x NumCPU in {1,2,3}, Hash is executed under every schedule within the bound; the digest must be one value per multiset of (path, content) across all schedules, orders and CPU counts. All collections of <=3 (4) files from a universe built from the code's shortcuts (prefix/concatenation names, same basename, empty, 70KB differing in last byte) must have pairwise different digests.",
+   note=SCHED_NOTE),
+ "C18": dict(engine="schedmc", cat="model_checking", ref="§2.2, §3 C18",
+   technique="stateless exploration of every interleaving and every single injected open/read fault of the real hash code under a controlled scheduler with deadlock/leak/livelock/panic detection",
+   text="Lists of <=3 entries of kinds {regular, directory, missing, dangling link, unreadable} in every position x NumCPU in {1,2,3} under every schedule within preemption bound 2 (1 for length 3; thorough 2 and unbounded for sizes 0..4 x NumCPU 1..4), plus <=1 (thorough 2) injected fault (open fails, copy fails mid-read): no deadlock, livelock, panic in any goroutine or goroutine left blocked; digest xor error; error whenever an entry could not be read.",
+   note=SCHED_NOTE + " Memory-level data races and 10^4-element lists are outside exhaustive reach (stated in DESIGN.md §6)."),
+})
+
 NOT_YET = {}
 
 ALL = ["C%02d" % i for i in range(1, 21)]
@@ -105,6 +118,8 @@ def main():
              "kind_free_text": "bounded-exhaustive enumeration of lexer/parser/formatter inputs executed on the real code in crash-isolated workers"},
             {"name": "histmc", "path": "harness/cmd/mc/histmc.go", "serves_properties": ["C01", "C02", "C14"],
              "kind_free_text": "explicit-state search over project histories: states (disk, reference model), transitions executed by the real code"},
+            {"name": "schedmc", "path": "harness/cmd/mc/schedmc.go, harness/overlay/vsched, harness/cmd/rewrite", "serves_properties": ["C04", "C18"],
+             "kind_free_text": "hand-written stateless model checker for Go: controlled scheduler + source rewriter, preemption/deviation-bounded DFS over choice sequences, optional state-key pruning"},
             {"name": "cfgmc", "path": "harness/cmd/mc/c03.go c05.go c17.go", "serves_properties": ["C03", "C05", "C17"],
              "kind_free_text": "exhaustive enumeration of small configuration universes (graphs x requests x iteration orders, trees x patterns, chains x start x stop) executed on the real code against reference functions"},
         ],
